@@ -47,6 +47,8 @@ def gen_cases(chk):
                 if ES[ty] > 1 and de == 0:
                     cases.append("rw %x %x 1 %s" % (ty, de, hexl(l)))
             cases.append("rw %x %x 2 _" % (ty, de))
+            # the same file read 120 times by a process that may open only two dozen more files
+            cases.append("rw %x %x 3 %s" % (ty, de, hexl(patterns(ty, rng, 41))))
     return cases
 
 
@@ -56,6 +58,12 @@ def oracle(case, out):
     a = case.split(" ")
     d = kv(out)
     mode = int(a[3], 16)
+    if d.get("fds", "0") not in ("0", "-1"):
+        return "the call left %s file descriptor(s) open" % d.get("fds")
+    if mode == 3:
+        if d.get("iter") != "0":
+            return "read number %s of the same well-formed file failed (status %s, %s elements) in a process allowed 24 more descriptors" % (d.get("iter"), d.get("st_r"), d.get("n"))
+        return None
     if mode == 2:
         if d.get("st_r") != "-2" or d.get("null") != "1":
             return "missing file: status %s, null=%s" % (d.get("st_r"), d.get("null"))
@@ -77,8 +85,11 @@ def run(chk):
     cases = gen_cases(chk)
     tmp = lib.scratch("szv-rw-")
     io = lib.run_cases(exe, cases, env={"SZV_TMP": tmp}, timeout=1800)
-    mo = lib.run_cases(model, cases, timeout=1800)
-    bad = chk.compare(cases, mo, io, lambda c, m, r: not c.endswith("_"))
+    # the model has no notion of descriptors: the fds= field and the repeated-read cases (mode 3) are the oracle's alone
+    mcases = [c for c in cases if c.split(" ")[3] != "3"]
+    mio = [" ".join(t for t in r.split(" ") if not t.startswith("fds=")) for c, r in zip(cases, io) if c.split(" ")[3] != "3"]
+    mo = lib.run_cases(model, mcases, timeout=1800)
+    bad = chk.compare(mcases, mo, mio, lambda c, m, r: not c.endswith("_"))
     nfail = 0
     for c, r in zip(cases, io):
         why = oracle(c, r)
@@ -88,11 +99,11 @@ def run(chk):
                 chk.violation("%s on `%s`" % (why, c[:120]), {"case": c, "impl": r[:2000], "variant": "asan"})
     if bad and not nfail:
         i = bad[0]
-        chk.broken.append("correspondence C19 on %d cases, first `%s`: model `%s` impl `%s`" % (len(bad), cases[i][:80], mo[i][:120], io[i][:120]))
-    chk.cov["traces_validated_against_impl"] = len(cases) - len(bad)
+        chk.broken.append("correspondence C19 on %d cases, first `%s`: model `%s` impl `%s`" % (len(bad), mcases[i][:80], mo[i][:120], mio[i][:120]))
+    chk.cov["traces_validated_against_impl"] = len(mcases) - len(bad)
     chk.cov["rule"] = ("10 element types x {declared little, declared big} x lengths 0..17, 63..65, 255, 256, 1000, 4096 (thorough: 1e5, 1e6), bit patterns "
                        "incl. NaN payloads/inf/denormals/extremes; mode 0 library writer + reader, mode 1 byte-swapped file read with the swap declared, "
-                       "mode 2 missing file; file bytes, values, counts and statuses compared with the model; real files in a scratch directory")
+                       "mode 2 missing file, mode 3 the same file read 120 times under a lowered descriptor limit; open descriptors counted around every call; file bytes, values, counts and statuses compared with the model; real files in a scratch directory")
     chk.cov["input_distribution"] = {"cases": len(cases)}
     for c in cases[20:22] + cases[-1:]:
         chk.sample(c[:160])
